@@ -47,6 +47,13 @@ pub enum Op {
     TreeMacro { shape: u8, root: Option<Key>, kbase: Key, val: u32 },
     /// b = a.clone(); drop(a); a = b
     RestartClone,
+    /// keep a clone of the current arena aside as a later `clone_from` destination
+    SaveSpare,
+    /// spare.clone_from(&a); drop(a); a = spare   (RestartClone if nothing was kept aside)
+    CloneFrom,
+    /// `with_capacity(n)` / `reserve(n)` guarantees on fresh arenas of payload type `ty`
+    /// (0 unit, 1 u8, 2 [u8; 4096], 3 [u8; 8192], 4 [u64; 4096], 5 String)
+    ObsCapacity { n: u32, ty: u8 },
     /// serialise to the simulated disk, deserialise a copy; the original stays as lock-step twin.
     /// fmt 0 = serde_json, 1 = harness binary format; `io` seeds the disk faults (0 = none)
     RestartSerde { fmt: u8, io: u64 },
@@ -94,6 +101,9 @@ impl Op {
             Op::CycleSlot { .. } => "cycle_slot",
             Op::TreeMacro { .. } => "tree_macro",
             Op::RestartClone => "restart_clone",
+            Op::SaveSpare => "save_spare",
+            Op::CloneFrom => "clone_from",
+            Op::ObsCapacity { .. } => "obs_capacity",
             Op::RestartSerde { .. } => "restart_serde",
             Op::Fork { .. } => "fork",
             Op::Clear => "clear",
@@ -114,6 +124,7 @@ impl Op {
                 | Op::ObsPrint { .. }
                 | Op::Drain
                 | Op::ObsPar { .. }
+                | Op::ObsCapacity { .. }
         )
     }
 }
